@@ -7,6 +7,7 @@ From SP Require Import BaseX Encodings Armor ArmorProofs ArmoredForms.
 From SP Require Import GoLang GoLang2 GoAst GoAstProofs GoAstProofs2 GoAstProofs3 GoAstProofs4a.
 From SP Require Import GoAstRecv.
 From SP Require Import Nonce GoAstSign GoAstProofs6b.
+From SP Require GoAstOpen GoAstProofs4b GoAstProofs5a GoAstProofs7c.
 From Coq Require String.
 Import String.StringSyntax.
 Import ListNotations.
@@ -283,6 +284,110 @@ Theorem C03_source_signcryptSealStream_init (c : crypto) (enc_step : gval -> byt
   end.
 Proof. exact (go_signcryptSealStream_init c enc_step st boxes syms ra rk rb). Qed.
 
+(* ---- source ties: the entry-point glue of the signcryption RECEIVER (/repo/signcrypt_open.go), lemmas of
+        proofs/GoAstProofs7c.v ---- *)
+(* The terms f_saltpack_signcryptOpenStream_readHeader, NewSigncryptOpenStream and SigncryptOpen are generated on every
+   run from the Go syntax trees of /repo/signcrypt_open.go (gen/GoAstOpen.v) and run by the evaluator of
+   model/GoLang2.v (run_func2: outcome AND final environment) on ENCODED arguments.  A msgpack stream is
+   [g_mps_raw input s]: the input BYTES not yet consumed and Go's packet counter s; a reader that cannot fail is the
+   bytes it holds (rdr_bytes r = Some input says which bytes r holds, it does not restrict them); the keyring KR and
+   the resolver RV are opaque values whose meaning is in the externs (kr, signers, rv).  The receiver object is the
+   struct literal NewSigncryptOpenStream builds, [g_sos_new mps KR RV], and after the header [g_sos_done ...]: payload
+   key, signer (nil and senderAnonymous for the anonymous sender), header hash, stream advanced; newChunkReader(x) is
+   [g_cr_new x].  (Inside this section g_signer is GoAstProofs7c's: the signer's public key bytes or nil.)
+   signcryptOpenStream.processHeader = the model's process_sc_header (tied by C03_source_processHeader);
+   NewSigncryptOpenStream inside SigncryptOpen = the model's signcrypt_open_stream, the stream it returns being the
+   model's loop; the compose_ theorems show these meanings ARE the outcomes of the translated callees.  An extern has
+   NO value where the model says Unmodelled or where the callee panics: the evaluator is then stuck at that call
+   (OStuck "call") and the statements say exactly when.  sc_read_header is the header stage of the model's
+   signcrypt_open_stream; nsos_outcome / scopen_outcome are what the constructor / SigncryptOpen return, as Go values;
+   scopen_class reads such an outcome back as a result of the model (all in GoAstProofs7c.v).
+   LIMITS: a reader failing in mid-packet is not modelled; newChunkReader(sos) is a VALUE copy in the evaluator;
+   "reading the returned chunk reader to the end yields the model's loop" is the meaning of an extern inside
+   SigncryptOpen, its pieces being C13_source_chunkReader_Read and the getNextChunk tie of the signcryption stream. *)
+Section C03_source_entry.
+Import GoAstOpen GoAstProofs4b GoAstProofs5a GoAstProofs7c.
+Local Open Scope string_scope.
+
+(* sc_read_header (read the header packet, hash it, decode it, process_sc_header) IS the header stage of the model's
+   signcrypt_open_stream: that function is this stage followed by the model's open loop on the rest.  No hypothesis. *)
+Theorem C03_source_signcrypt_open_stream_header (c : crypto) (kr : keyring) (signers : sigring) (rv : resolver) (input : bytes) :
+  signcrypt_open_stream c kr signers rv input =
+  bind (sc_read_header c kr signers rv input) (fun x =>
+  let '(pkey, signer, hh, rest) := x in
+  Ok (signer, sc_open_loop c (S (List.length rest)) pkey signer hh 0 rest [])).
+Proof. exact (signcrypt_open_stream_header c kr signers rv input). Qed.
+
+(* sos.readHeader() on the object NewSigncryptOpenStream builds returns the Go value of the error of sc_read_header, and
+   on success nil, leaving g_sos_done: payload key, signer, header hash sha512(header bytes), the stream advanced by one
+   packet.  Stuck "call" where the model says Unmodelled or a panic.  No hypothesis. *)
+Theorem C03_source_signcryptOpenStream_readHeader (c : crypto) (kr : keyring) (signers : sigring) (rv : resolver)
+        (KR RV : gval) (input : bytes) (s : Z) :
+  let r := run_func2 (ext_schdr c kr signers rv) f_saltpack_signcryptOpenStream_readHeader [g_sos_new (g_mps_raw input s) KR RV] in
+  match sc_read_header c kr signers rv input with
+  | Ok (pkey, signer, hh, rest) =>
+    fst r = ORet [VNil] /\
+    lookup "sos" (snd r) = Some (g_sos_done (g_mps_raw rest ((s + 1) mod two64)) KR RV pkey hh signer)
+  | Err e => match g_herr e with Some ev => fst r = ORet [ev] | None => fst r = OStuck "call" end
+  end.
+Proof. exact (go_signcryptOpenStream_readHeader c kr signers rv KR RV input s). Qed.
+
+(* the meaning ext_nsos (NewSigncryptOpenStream) gives to the call sos.readHeader, on the object the constructor builds,
+   gives the results of the theorem above: nil and the same receiver object, or the same error value.  No hypothesis. *)
+Theorem C03_source_compose_signcryptOpenStream_readHeader (c : crypto) (kr : keyring) (signers : sigring) (rv : resolver)
+        (KR RV : gval) (input : bytes) (s : Z) :
+  let r := run_func2 (ext_schdr c kr signers rv) f_saltpack_signcryptOpenStream_readHeader [g_sos_new (g_mps_raw input s) KR RV] in
+  match ext_nsos c kr signers rv "signcryptOpenStream.readHeader" [g_sos_new (g_mps_raw input s) KR RV] with
+  | Some [VNil; obj] => fst r = ORet [VNil] /\ lookup "sos" (snd r) = Some obj
+  | Some [ev] => fst r = ORet [ev]
+  | _ => fst r = OStuck "call"
+  end.
+Proof. exact (compose_signcryptOpenStream_readHeader c kr signers rv KR RV input s). Qed.
+
+(* NewSigncryptOpenStream(r, keyring, resolver) returns nsos_outcome: the signer's public key (nil for the anonymous
+   sender), the chunk reader over the receiver object readHeader left, nil; or (nil, nil, the header error).
+   Hypothesis: rdr_bytes r = Some input. *)
+Theorem C03_source_NewSigncryptOpenStream (c : crypto) (kr : keyring) (signers : sigring) (rv : resolver) (r KR RV : gval)
+        (input : bytes) :
+  rdr_bytes r = Some input ->
+  fst (run_func2 (ext_nsos c kr signers rv) f_saltpack_NewSigncryptOpenStream [r; KR; RV])
+  = nsos_outcome c kr signers rv KR RV input.
+Proof. exact (go_NewSigncryptOpenStream c kr signers rv r KR RV input). Qed.
+
+(* the meaning ext_scopen (SigncryptOpen) gives to the call NewSigncryptOpenStream returns the signer and the error of the
+   translated constructor (the reader it returns stands for the model's stream).  No hypothesis. *)
+Theorem C03_source_compose_NewSigncryptOpenStream (c : crypto) (kr : keyring) (signers : sigring) (rv : resolver)
+        (KR RV : gval) (input : bytes) :
+  match ext_scopen c kr signers rv "NewSigncryptOpenStream" [VBytes input; KR; RV] with
+  | Some [sg; strm; e] => exists rdr, nsos_outcome c kr signers rv KR RV input = ORet [sg; rdr; e]
+  | _ => nsos_outcome c kr signers rv KR RV input = OStuck "call"
+  end.
+Proof. exact (compose_NewSigncryptOpenStream c kr signers rv KR RV input). Qed.
+
+(* SigncryptOpen(ciphertext, keyring, resolver), the all-at-once entry point, returns scopen_outcome: the sender key and
+   the concatenated chunks when the stream ends cleanly, (nil, nil, err) when it ends with an error, and the
+   constructor's error otherwise.  No hypothesis. *)
+Theorem C03_source_SigncryptOpen (c : crypto) (kr : keyring) (signers : sigring) (rv : resolver) (KR RV : gval) (input : bytes) :
+  fst (run_func2 (ext_scopen c kr signers rv) f_saltpack_SigncryptOpen [VBytes input; KR; RV])
+  = scopen_outcome c kr signers rv input.
+Proof. exact (go_SigncryptOpen c kr signers rv KR RV input). Qed.
+
+(* SigncryptOpen against the model: the class of what it returns is the model's signcrypt_open_all (the function the
+   C03 round-trip theorems are about).  Hypothesis: the outcome is not the stuck evaluator (the model says Unmodelled
+   or a panic). *)
+Theorem C03_source_scopen_outcome_model (c : crypto) (kr : keyring) (signers : sigring) (rv : resolver) (input : bytes) :
+  scopen_outcome c kr signers rv input <> OStuck "call" ->
+  scopen_class (scopen_outcome c kr signers rv input) = signcrypt_open_all c kr signers rv input.
+Proof. exact (scopen_outcome_model c kr signers rv input). Qed.
+End C03_source_entry.
+
+Print Assumptions C03_source_signcrypt_open_stream_header.
+Print Assumptions C03_source_signcryptOpenStream_readHeader.
+Print Assumptions C03_source_compose_signcryptOpenStream_readHeader.
+Print Assumptions C03_source_NewSigncryptOpenStream.
+Print Assumptions C03_source_compose_NewSigncryptOpenStream.
+Print Assumptions C03_source_SigncryptOpen.
+Print Assumptions C03_source_scopen_outcome_model.
 Print Assumptions C03_source_derivedEphemeralKeyFromBoxKeys.
 Print Assumptions C03_source_keyIdentifierFromDerivedKey.
 Print Assumptions C03_source_receiverBoxKey_makeReceiverKeys.
